@@ -21,7 +21,13 @@ import (
 // can (both internal queues full, the loops parked), then drains everything.
 // It returns the input-derived events (resize/error events are dropped).
 func RunReads(ti *terminfo.Terminfo, charset string, reads [][]byte, deferPoll bool, want int) ([]inref.Ev, error) {
-	os.Setenv("LC_ALL", "en_US."+charset)
+	return RunReadsLocale(ti, "en_US."+charset, reads, deferPoll, want)
+}
+
+// RunReadsLocale is RunReads with the full locale name (language[.codeset][@modifier])
+// that the screen finds in LC_ALL.
+func RunReadsLocale(ti *terminfo.Terminfo, locale string, reads [][]byte, deferPoll bool, want int) ([]inref.Ev, error) {
+	os.Setenv("LC_ALL", locale)
 	cp := *ti
 	cp.PadChar = ""
 	tty := faketty.New(100, 100)
